@@ -7,6 +7,8 @@ Three parts, judged by the property they belong to:
                    connection for as long as the worker keeps it
   responses (C02)  6 MiB responses four ways, as first and second request of a connection, client pausing before it reads
   hostile   (C05)  malformed streams, each followed by a normal request; application calls counted in the worker
+  records   (C19)  the access log (TCP bind, slow clients with a small receive window, error-log level warning for two of the
+                   classes) against what the clients received: one record per completed request, its status and byte count
 """
 import hashlib
 import os
@@ -94,8 +96,10 @@ CLASSES = ("sync", "gthread", "gevent", "eventlet")
 
 
 class BatteryServer(R.Server):
-    def __init__(self, cls):
-        R.Server.__init__(self, worker_class=cls, workers=1, graceful=3, bind="unix", keepalive=5, timeout=30)
+    def __init__(self, cls, extra=None, bind="unix"):
+        R.Server.__init__(self, worker_class=cls, workers=1, graceful=3, bind=bind, keepalive=5, timeout=30, extra=extra)
+        if extra and "loglevel" in extra:
+            self.cli_loglevel = None                # the error-log level comes from the configuration file
         with open(os.path.join(self.dir, "gvapp.py"), "w") as fh:
             fh.write(APP)
 
@@ -312,7 +316,96 @@ def part_hostile(cls):
     return fails
 
 
-PARTS = {"bodies": part_bodies, "responses": part_responses, "hostile": part_hostile}
+def part_records(cls):
+    """-> list of failures (C19): the access log of a real master against what the clients received"""
+    import re
+    fails = []
+    srv = None
+    try:
+        srv = BatteryServer(cls, extra={"loglevel": "warning" if cls in ("gthread", "eventlet") else "info"}, bind="tcp")
+        logf = os.path.join(srv.dir, "access.log")
+        srv.write_conf(accesslog=logf, access_log_format='%(s)s %(B)s "%(r)s"')
+        srv.start()
+        sent = []                                   # (request line, status, body bytes received)
+
+        def one(path, method="GET", body=b"", slow=False):
+            if slow:
+                # a small receive window, set before the connection is made: the server's sends come back short
+                c = socket.socket(socket.AF_INET, socket.SOCK_STREAM)
+                c.setsockopt(socket.SOL_SOCKET, socket.SO_RCVBUF, 4096)
+                c.settimeout(40)
+                c.connect(("127.0.0.1", srv.port))
+            else:
+                c = srv.conn(timeout=40)
+            head = "%s %s HTTP/1.1\r\nHost: x\r\nConnection: close\r\n" % (method, path)
+            if body:
+                head += "Content-Length: %d\r\n" % len(body)
+            c.sendall(head.encode() + b"\r\n" + body)
+            if slow:
+                time.sleep(0.8)                    # the server's send buffer fills: short sends
+            st, hd, got, complete, err = G.read_response(c, 40)
+            c.close()
+            sent.append(("%s %s HTTP/1.1" % (method, path), st, len(got), complete))
+        one("/small")
+        one("/echo-read", "POST", b"x" * 3000)
+        one("/big-cl", slow=True)
+        one("/big-chunked", slow=True)
+        one("/big-write", slow=True)
+        one("/big-file", slow=True)
+        one("/big-file")
+        one("/small")
+        # a request the server rejects itself: at most one record
+        c = srv.conn()
+        c.sendall(b"GET /rejected HTTP/1.1\r\nHost : x\r\n\r\n")
+        G.read_response(c, 5)
+        c.close()
+        time.sleep(0.5)
+        try:
+            with open(logf) as fh:
+                recs = [l.rstrip("\n") for l in fh if l.strip()]
+        except OSError:
+            recs = []
+        parsed = []
+        for l in recs:
+            m = re.fullmatch(r'(\d{3}) (\d+) "(.*)"', l)
+            parsed.append((m.group(3), int(m.group(1)), int(m.group(2))) if m else (None, None, l))
+        for line, st, nbytes, complete in sent:
+            mine = [p for p in parsed if p[0] == line]
+            want_n = sum(1 for x in sent if x[0] == line)
+            if not complete or st != 200:
+                fails.append("%s worker: %r was not answered in full (status %r, %d bytes)" % (cls, line, st, nbytes))
+                continue
+            if len(mine) != want_n:
+                fails.append("%s worker (loglevel %s): %d request(s) %r completed with status 200, the access log has %d record(s) for them; log: %r"
+                             % (cls, srv.settings.get("loglevel"), want_n, line, len(mine), recs[:12]))
+                continue
+            for p_ in mine:
+                if p_[1] != st or p_[2] != nbytes:
+                    fails.append("%s worker: the record for %r says status %r, %r body bytes; the client received status %r and %d body bytes"
+                                 % (cls, line, p_[1], p_[2], st, nbytes))
+                    break
+        rej = [p for p in parsed if p[0] and "/rejected" in p[0]]
+        if len(rej) > 1:
+            fails.append("%s worker: a request the server rejected itself has %d records" % (cls, len(rej)))
+        junk = [p for p in parsed if p[0] is None]
+        if junk:
+            fails.append("%s worker: access-log lines that are not records of the configured format: %r" % (cls, junk[:3]))
+    except Exception as e:
+        fails.append("harness: %s: %s | %s" % (type(e).__name__, e, srv.read_log()[-500:] if srv else ""))
+    finally:
+        if srv is not None:
+            srv.cleanup()
+    # one failure per kind is enough for a report
+    out, seen = [], set()
+    for f in fails:
+        k = f.split(":")[1][:40] if ":" in f else f[:40]
+        if k not in seen:
+            seen.add(k)
+            out.append(f)
+    return out
+
+
+PARTS = {"bodies": part_bodies, "responses": part_responses, "hostile": part_hostile, "records": part_records}
 
 
 def run_part(part, classes=CLASSES):
